@@ -87,8 +87,9 @@ def _labels(rng, p):
 
 def gen_case(rng, tier):
     explicit = rng.random() < .3
-    p = gen_pomdp.gen_pomdp(rng, min_states=1 if rng.random() < .06 else 2, tiny=.4, near_twin=.6, big_rewards=.1,
-                            force_reachable=not (explicit and rng.random() < .5))
+    single = rng.random() < .04
+    p = gen_pomdp.gen_pomdp(rng, nmax=1 if single else 5, min_states=1 if single else 2, tiny=.4, near_twin=.6,
+                            big_rewards=.1, force_reachable=not (explicit and rng.random() < .8))
     beliefs = gen_pomdp.gen_beliefs(rng, p, n_grid=2, tiny=True)
     for be in beliefs:          # how the belief is handed to msdm
         perm = list(range(p["n"]))
@@ -307,7 +308,7 @@ def run(ctx):
 
 
 def _run(ctx, tier):
-    ncases = 200 if tier == "quick" else 3000
+    ncases = 170 if tier == "quick" else 2500
     if ctx.replay_case:
         cases = [ctx.replay_case["detail"]["case"]]
     else:
@@ -425,7 +426,7 @@ def _run(ctx, tier):
     ctx.coverage.update({
         "evaluations": nevals,
         "distinct_nontrivial": len(distinct),
-        "rule": "POMDPs from harness/gen_pomdp.py (1..5 states (1 state: 6%), 1..3 actions, 1..4 observations, k/8 probabilities with zero entries, "
+        "rule": "POMDPs from harness/gen_pomdp.py (1..5 states (1 state: 4%), 1..3 actions, 1..4 observations, k/8 probabilities with zero entries, "
                 "action-dependent asymmetric observation kernels incl. uninformative / twin-column / deterministic ones, absorbing flags with and "
                 "without exits, rewards, multi-state initial distributions; 40% of the POMDPs have observation entries 2^-30 / 2^-40 = possible but very rare observations; twin kernels with one column moved by 2^-30 = posteriors ~1e-9 apart that must stay distinct; 10% rewards scaled by 1000 / 2^16; unreachable states under explicit lists); beliefs per POMDP: all vertices, two faces, 2 grid points k/8, beliefs with a component 2^-30, an interior "
                 "point, the initial distribution, absorbing-supported and leaking beliefs, 3 exactly computed reachable beliefs; for every belief all "
